@@ -5,6 +5,7 @@ package c11
 import (
 	"bytes"
 	"encoding/csv"
+	"encoding/json"
 	"fmt"
 	"math"
 	"os"
@@ -432,7 +433,19 @@ func str(t *rapid.T, label string, excluded *int) string {
 
 // ---- JSON ----
 
+// Rich is a JSON element whose decoding is not a full overwrite of the target: optional fields,
+// a slice, a map and a pointer.
+type Rich struct {
+	Name   string         `json:"name"`
+	Note   string         `json:"note,omitempty"`
+	Splits []float64      `json:"splits,omitempty"`
+	Tags   map[string]int `json:"tags,omitempty"`
+	Lot    *int           `json:"lot,omitempty"`
+}
+
 type jsonCase struct {
+	Rich    []Rich           `json:"rich"`
+	Maps    []map[string]int `json:"maps"`
 	Ints    []int64          `json:"ints"`
 	Floats  []float64        `json:"floats"`
 	Strings []string         `json:"strings"`
@@ -447,11 +460,78 @@ func roundTripJSON[T any](xs []T) ([]T, error) {
 	return helper.ChanToSlice(helper.JSONToChan[T](&buf)), nil
 }
 
+func richJSON(r Rich) string {
+	b, _ := json.Marshal(r)
+	return string(b)
+}
+
+// richRoundTrip streams the elements out and back and compares each one at the moment it is
+// received (and again at the end).
+func richRoundTrip(xs []Rich) string {
+	var buf bytes.Buffer
+	if err := helper.ChanToJSON(helper.SliceToChan(xs), &buf); err != nil {
+		return "ChanToJSON: " + err.Error()
+	}
+	var got []Rich
+	i := 0
+	for r := range helper.JSONToChan[Rich](&buf) {
+		if i >= len(xs) {
+			return fmt.Sprintf("JSON: more elements came back than were written (%d)", len(xs))
+		}
+		if richJSON(r) != richJSON(xs[i]) {
+			return fmt.Sprintf("JSON element %d %s came back as %s (stream %s)", i, richJSON(xs[i]), richJSON(r), richJSON2(xs))
+		}
+		got = append(got, r)
+		i++
+	}
+	if len(got) != len(xs) {
+		return fmt.Sprintf("JSON: %d elements came back of %d", len(got), len(xs))
+	}
+	for i := range got {
+		if richJSON(got[i]) != richJSON(xs[i]) {
+			return fmt.Sprintf("JSON element %d %s was changed to %s after it had been delivered", i, richJSON(xs[i]), richJSON(got[i]))
+		}
+	}
+	return ""
+}
+
+func richJSON2(xs []Rich) string {
+	b, _ := json.Marshal(xs)
+	return string(b)
+}
+
 func jsonProp() engine.AnyProp {
 	return engine.Prop[jsonCase]{
 		ID: "C11", Subject: "json",
 		Gen: func(t *rapid.T) jsonCase {
 			c := jsonCase{}
+			for i, n := 0, rapid.IntRange(0, 5).Draw(t, "nr"); i < n; i++ {
+				r := Rich{Name: rapid.SampledFrom([]string{"AAA", "BBB", ""}).Draw(t, "rn")}
+				if rapid.Bool().Draw(t, "hasnote") {
+					r.Note = rapid.SampledFrom([]string{"halted", "x"}).Draw(t, "note")
+				}
+				for j, m := 0, rapid.IntRange(0, 3).Draw(t, "nsplit"); j < m; j++ {
+					r.Splits = append(r.Splits, float64(rapid.IntRange(1, 9).Draw(t, "split")))
+				}
+				for j, m := 0, rapid.IntRange(0, 2).Draw(t, "ntag"); j < m; j++ {
+					if r.Tags == nil {
+						r.Tags = map[string]int{}
+					}
+					r.Tags[rapid.SampledFrom([]string{"a", "b", "c"}).Draw(t, "tag")] = rapid.IntRange(0, 5).Draw(t, "tagv")
+				}
+				if rapid.Bool().Draw(t, "haslot") {
+					v := rapid.IntRange(0, 100).Draw(t, "lot")
+					r.Lot = &v
+				}
+				c.Rich = append(c.Rich, r)
+			}
+			for i, n := 0, rapid.IntRange(0, 4).Draw(t, "nm"); i < n; i++ {
+				m := map[string]int{}
+				for j, k := 0, rapid.IntRange(0, 3).Draw(t, "mk"); j < k; j++ {
+					m[rapid.SampledFrom([]string{"a", "b", "c", "d"}).Draw(t, "key")] = rapid.IntRange(0, 9).Draw(t, "val")
+				}
+				c.Maps = append(c.Maps, m)
+			}
 			for i, n := 0, rapid.IntRange(0, 6).Draw(t, "ni"); i < n; i++ {
 				c.Ints = append(c.Ints, genInt(t, "i", 64))
 			}
@@ -483,6 +563,29 @@ func jsonProp() engine.AnyProp {
 		},
 		Check: func(c jsonCase) engine.Outcome {
 			var o engine.Outcome
+			// elements are compared as they come off the channel: a later element must not reach
+			// back into one already delivered
+			if msg := richRoundTrip(c.Rich); msg != "" {
+				o.Failf("%s", msg)
+				return o
+			}
+			gm, err := roundTripJSON(c.Maps)
+			if err != nil || len(gm) != len(c.Maps) {
+				o.Failf("JSON maps: %d came back of %d (%v)", len(gm), len(c.Maps), err)
+				return o
+			}
+			for i := range gm {
+				if len(gm[i]) != len(c.Maps[i]) {
+					o.Failf("JSON map %d %v came back as %v", i, c.Maps[i], gm[i])
+					return o
+				}
+				for k, v := range c.Maps[i] {
+					if gm[i][k] != v {
+						o.Failf("JSON map %d %v came back as %v", i, c.Maps[i], gm[i])
+						return o
+					}
+				}
+			}
 			gi, err := roundTripJSON(c.Ints)
 			if err != nil || !reflect.DeepEqual(gi, c.Ints) && !(len(gi) == 0 && len(c.Ints) == 0) {
 				o.Failf("JSON ints %v came back as %v (%v)", c.Ints, gi, err)
